@@ -93,6 +93,7 @@ type Interp struct {
 	pools     map[*Object]*poolState
 	timeNow   int
 	mainDeferFr *frame
+	frozenObjs []*Object
 	params map[string]int
 	callStack []*frame
 	panicStack []string
